@@ -9,6 +9,9 @@
 //   - exportOptionsMap          FileInfo.ExportOptions: which FileInfo attribute overrides which session option
 //   - loaderStores              per loader: every store into fileInfo (field, value, guard), in order
 //   - Det / scanStep / scan / lineBreak   jsonLineBreakDetector.scan and .LineBreak translated statement by statement
+//   - fixedlenMeasure / fixedlenPositions / fixedlenSeparator / fixedlenAlign
+//     the measure pass, the running-sum positions, the separating blank and the padding by
+//     alignment of the go-text fixedlen writer (read from the module the tree's go.mod pins)
 //
 // Stdlib only.  Exits 1 on anything outside the subset it translates; calls it does not translate appear as
 // source text tokens that the theorems compare with the reviewed ones.
@@ -693,6 +696,152 @@ func emitDetector(lv *ast.File) {
 	fmt.Printf("/-- jsonLineBreakDetector.Read -/\ndef detectorRead : List String :=\n  %s\n\n", qlist(rs))
 }
 
+// ---------- go-text/fixedlen: widths, positions, padding (the pinned dependency) ----------
+
+// goTextDir: the directory of the go-text module version named in the tree's go.mod
+func goTextDir() string {
+	b, err := os.ReadFile(filepath.Join(repo(), "go.mod"))
+	if err != nil {
+		die("%v", err)
+	}
+	ver := ""
+	for _, l := range strings.Split(string(b), "\n") {
+		f := strings.Fields(l)
+		for i, w := range f {
+			if w == "github.com/mithrandie/go-text" && i+1 < len(f) {
+				ver = f[i+1]
+			}
+		}
+	}
+	if ver == "" {
+		die("go.mod does not name github.com/mithrandie/go-text")
+	}
+	var roots []string
+	if c := os.Getenv("GOMODCACHE"); c != "" {
+		roots = append(roots, c)
+	}
+	if g := os.Getenv("GOPATH"); g != "" {
+		roots = append(roots, filepath.Join(g, "pkg", "mod"))
+	}
+	if h, err := os.UserHomeDir(); err == nil {
+		roots = append(roots, filepath.Join(h, "go", "pkg", "mod"))
+	}
+	roots = append(roots, "/root/go/pkg/mod")
+	for _, r := range roots {
+		d := filepath.Join(r, "github.com", "mithrandie", "go-text@"+ver)
+		if st, err := os.Stat(d); err == nil && st.IsDir() {
+			return d
+		}
+	}
+	die("module github.com/mithrandie/go-text@%s not found in the module cache", ver)
+	return ""
+}
+
+func parseAbs(path string) *ast.File {
+	f, err := parser.ParseFile(fset, path, nil, 0)
+	if err != nil {
+		die("%v", err)
+	}
+	return f
+}
+
+// the statements of the one `for … range` loop of fn
+func rangeBody(fn *ast.FuncDecl) []string {
+	var out []string
+	found := 0
+	ast.Inspect(fn.Body, func(n ast.Node) bool {
+		if r, ok := n.(*ast.RangeStmt); ok && found == 0 {
+			found++
+			for _, st := range r.Body.List {
+				out = append(out, src(st))
+			}
+			return false
+		}
+		return true
+	})
+	if found != 1 {
+		die("%s: expected one range loop (%s)", fn.Name.Name, pos(fn))
+	}
+	return out
+}
+
+func emitFixedlen() {
+	dir := goTextDir()
+	measure := parseAbs(filepath.Join(dir, "fixedlen", "measure.go"))
+	writer := parseAbs(filepath.Join(dir, "fixedlen", "writer.go"))
+	fmt.Printf("/-- go-text fixedlen `Measure.Measure`: per field of a record, the width of its column so far and the byte size of the text -/\ndef fixedlenMeasure : List String :=\n  %s\n\n",
+		qlist(rangeBody(findFunc(measure, "Measure", "Measure"))))
+	fmt.Printf("/-- `Measure.GeneratePositions`: the running sums of the widths -/\ndef fixedlenPositions : List String :=\n  %s\n\n",
+		qlist(rangeBody(findFunc(measure, "Measure", "GeneratePositions"))))
+	// Writer.Write: the separating pad character
+	wr := findFunc(writer, "Writer", "Write")
+	var sep []string
+	ast.Inspect(wr.Body, func(n ast.Node) bool {
+		if ifs, ok := n.(*ast.IfStmt); ok && strings.Contains(src(ifs.Cond), "InsertSpace") {
+			sep = append(sep, src(ifs.Cond))
+			ast.Inspect(ifs.Body, func(m ast.Node) bool {
+				if c, ok := m.(*ast.CallExpr); ok && strings.HasPrefix(src(c.Fun), "e.writer.") {
+					sep = append(sep, src(c))
+				}
+				return true
+			})
+			return false
+		}
+		return true
+	})
+	if len(sep) != 2 {
+		die("Writer.Write: the InsertSpace branch is not `if … { e.writer.WriteByte(…) }` (%s)", pos(wr))
+	}
+	fmt.Printf("/-- `Writer.Write`: when, and what, is written between two fields -/\ndef fixedlenSeparator : List String :=\n  %s\n\n", qlist(sep))
+	// addField: per alignment, what is written in which order
+	af := findFunc(writer, "Writer", "addField")
+	var sw *ast.SwitchStmt
+	var pre []string
+	for _, st := range af.Body.List {
+		switch x := st.(type) {
+		case *ast.SwitchStmt:
+			sw = x
+		case *ast.AssignStmt:
+			pre = append(pre, src(x))
+		case *ast.IfStmt:
+			pre = append(pre, "if "+src(x.Cond)+" { error }")
+		}
+	}
+	if sw == nil || src(sw.Tag) != "field.Alignment" {
+		die("addField: no switch on field.Alignment (%s)", pos(af))
+	}
+	var cases []string
+	for _, c := range sw.Body.List {
+		cl := c.(*ast.CaseClause)
+		label := "default"
+		if len(cl.List) > 0 {
+			label = strings.Join(caseNames(cl, ""), "|")
+		}
+		var writes []string
+		for _, st := range cl.Body {
+			ast.Inspect(st, func(m ast.Node) bool {
+				switch y := m.(type) {
+				case *ast.CallExpr:
+					if strings.HasPrefix(src(y.Fun), "e.writer.") && len(y.Args) == 1 {
+						writes = append(writes, src(y.Args[0]))
+						return false
+					}
+				case *ast.AssignStmt:
+					if len(y.Lhs) == 1 && len(y.Rhs) == 1 {
+						if _, isCall := y.Rhs[0].(*ast.CallExpr); !isCall {
+							writes = append(writes, src(y))
+						}
+					}
+				}
+				return true
+			})
+		}
+		cases = append(cases, "("+q(label)+", "+qlist(writes)+")")
+	}
+	fmt.Printf("/-- `Writer.addField`: the size test, then per alignment what is written in which order -/\ndef fixedlenFit : List String :=\n  %s\n\ndef fixedlenAlign : List (String × List String) :=\n  [%s]\n\n",
+		qlist(pre), strings.Join(cases, ",\n   "))
+}
+
 func main() {
 	enc := parse("lib/query/encode.go")
 	fi := parse("lib/query/file_info.go")
@@ -712,5 +861,6 @@ func main() {
 	emitExportOptions(fi)
 	emitLoaders(lv)
 	emitDetector(lv)
+	emitFixedlen()
 	fmt.Println("end Csvq.Gen.Enc")
 }
